@@ -79,13 +79,7 @@ pub fn result_json(r: &Result<DecoderOutput, DecoderOutput>) -> Value {
 }
 
 pub fn matrix(rows: &[Vec<usize>], n: usize) -> SparseMatrix {
-    let mut h = SparseMatrix::new(rows.len(), n);
-    for (j, r) in rows.iter().enumerate() {
-        for &c in r {
-            h.insert(j, c);
-        }
-    }
-    h
+    crate::c02::sparse_from_rows(rows, n)
 }
 
 /// Random parity-check matrix with every row weight >= 2; classes: regular-ish, irregular with degree-1 and
